@@ -81,6 +81,21 @@ def cases(rng, tier):
         hi = f32(lo + abs(rand_f(rng, -2, 4)))
         off = rand_f(rng, -2, 4) * rng.choice([1, -1, -1])
         yield ("util expand %s %s %s" % (fhex(lo), fhex(hi), fhex(off)), "expand")
+    for _ in range(n // 4):
+        iv = []
+        for ax in range(3):
+            lo = rand_f(rng, -2, 4)
+            iv += [lo, f32(lo + abs(rand_f(rng, -2, 4)))]
+        off = rand_f(rng, -2, 4) * rng.choice([1, -1, -1])
+        yield ("util boxexpand %s %s" % (" ".join(fhex(x) for x in iv), fhex(off)), "boxexpand")
+    # --- the 1-D and 2-D scale helpers
+    for k in list(range(1, 130, 7)) + [127, 128]:
+        for delta in (0.0, 1.0, 0.5):
+            x = f32(k * 32767.0 + delta) * rng.choice([1, -1])
+            yield ("util scale1 %d %s" % (rng.choice([0, 1, 2, k % 128]), fhex(x)), "scale1")
+            y = rand_f(rng, 0, 4)
+            xy = (x, y) if rng.random() < 0.5 else (y, x)
+            yield ("util scale2 %d %s %s" % (rng.choice([0, 1, 2, k % 128]), fhex(xy[0]), fhex(xy[1])), "scale2")
     # --- colour interpolation: all channel pairs of a grid x ratios
     grid = [0, 1, 2, 17, 127, 128, 200, 254, 255]
     ratios = [0.0, 1.0, 0.5, 0.25, 1 / 3.0, 0.999999, 1e-7] + [k / 63.0 for k in range(64)]
@@ -97,13 +112,22 @@ def cases(rng, tier):
         yield ("util rgbw fixed %d %d %d %d 0 0" % (c[0], c[1], c[2], rng.randrange(256)), "rgbw-fixed")
         ref = [rng.choice([0, 1, 255, 200, 180, rng.randrange(256)]) for _ in range(3)]
         yield ("util rgbw ref %d %d %d %d %d %d" % (c[0], c[1], c[2], ref[0], ref[1], ref[2]), "rgbw-ref")
+    for _ in range(n // 4):
+        c = [rng.choice([0, 1, 255, rng.randrange(256)]) for _ in range(3)]
+        t1 = rng.choice([500.0, 1000.0, 1500.0, 2700.0, 4000.0, 6500.0, 6600.0, 6700.0, 10000.0, 40000.0, 50000.0, rng.uniform(800, 45000)])
+        t2 = rng.choice([t1, t1, rng.uniform(800, 45000)])
+        yield ("util rgbwtemp %d %d %d %s %s" % (c[0], c[1], c[2], fhex(f32(t1)), fhex(f32(t2))), "rgbw-temperature")
     # --- buffer operation sequences
     def rand_ops(k):
         ops = []
         for _ in range(k):
-            o = rng.choice("aaazzrrcpf")
+            o = rng.choice("aaazzrrcpfbk")
             if o == "a":
                 ops.append("a" + hexs([rng.randrange(256) for _ in range(rng.choice([0, 1, 2, 3, 7, 20]))]))
+            elif o == "b":
+                ops.append("b%d" % rng.randrange(256))
+            elif o == "k":
+                ops.append("k" + hexs([rng.randrange(256) for _ in range(rng.choice([0, 1, 2, 5, 17]))]))
             elif o == "z":
                 ops.append("z%d" % rng.choice([0, 1, 2, 5, 11, 40]))
             elif o == "r":
@@ -138,7 +162,21 @@ def compare(case, om, oi):
         return f is not None and f == parse_q(m)
     if kind in ("travel", "fop"):
         return None if same(om, oi) else "model=%s impl=%s" % (om, oi)
-    if kind == "expand":
+    if kind == "rgbwtemp":
+        # C against C and the property's own clause: reference-colour method never exceeds the original channels
+        f = oi.split(" ")
+        if len(f) != 4:
+            return "unexpected output %s" % oi
+        out = [int(x) for x in f[1].split(",")]
+        orig = [int(x) for x in w[2:5]]
+        if f[2] != "same":
+            return "colour-temperature conversion differs from the reference-colour conversion with the same colour: %s" % oi
+        if f[3] != "off-ok":
+            return "turned-off conversion / colour comparison helpers: %s" % oi
+        if any(o > c for o, c in zip(out[:3], orig)):
+            return "reference-colour conversion exceeds the original channels: %s -> %s" % (orig, out)
+        return None
+    if kind in ("expand", "boxexpand"):
         a, b = om.split(","), oi.split(",")
         return None if all(same(x, y) for x, y in zip(a, b)) else "model=%s impl=%s" % (om, oi)
     return "model=%s impl=%s" % (om, oi)
